@@ -2,7 +2,7 @@ SPECIFICATION Spec
 CONSTANTS
   Platforms = {"ledger", "sgx"}
   MaxDev = 2
-  MaxFileMut = 1
+  MaxFileMut = 2
   Sep = TRUE
   FullExt = 2
   Wildcard = FALSE
